@@ -1,20 +1,36 @@
 #!/usr/bin/env python3
 """markdown table of /verif/seeded/*/meta.json for DESIGN.md §11"""
 import glob, json, os
+
+
+def order(p):
+    sid = os.path.basename(os.path.dirname(p))
+    return (sid[:2] if sid.startswith("r") else "", sid)
+
+
 rows = []
-tot = {"1": [0, 0, 0], "2": [0, 0, 0]}
-for f in sorted(glob.glob("/verif/seeded/*/meta.json"), key=lambda p: (os.path.basename(os.path.dirname(p)).startswith("r2"), p)):
+tot = {}
+for f in sorted(glob.glob("/verif/seeded/*/meta.json"), key=order):
     m = json.load(open(f))
     prop = m["property"]
     first = m.get("first_run", {}).get(prop)
     final = m.get("checks_run", {}).get(prop)
     r = m.get("round", "1")[0]
-    tot[r][0] += 1
-    tot[r][1] += bool(first and first["exit"] == 1)
-    tot[r][2] += bool(final and final["exit"] == 1)
-    rows.append(f"| {m['seed']} | {m.get('summary', '')[:160].replace('|', '/')} | {first['verdict'] if first else '-'} | {final['verdict'] if final else '-'} |")
+    t = tot.setdefault(r, dict(n=0, first=0, first_err=0, final=0, retired=0))
+    t["n"] += 1
+    t["first"] += bool(first and first["exit"] == 1)
+    t["first_err"] += bool(first and first["exit"] not in (0, 1))
+    if m.get("retired"):
+        t["retired"] += 1
+        fin = "retired: harmless since fix 363554c, check silent"
+    else:
+        t["final"] += bool(final and final["exit"] == 1)
+        fin = final["verdict"] if final else "-"
+    rows.append(f"| {m['seed']} | {m.get('summary', '')[:150].replace('|', '/')} | {first['verdict'] if first else '-'} | {fin} |")
 print("| seed | change | quick check of its property when first tried | final quick check |\n|---|---|---|---|")
 print("\n".join(rows))
 print()
-for r, (n, a, b) in tot.items():
-    print(f"Round {r}: {n} changes, {a} caught when first tried, {b} caught by the final checks.")
+for r, t in sorted(tot.items()):
+    print(f"Round {r}: {t['n']} changes; when first tried {t['first']} caught, {t['first_err']} engine errors, "
+          f"{t['n'] - t['first'] - t['first_err']} missed; final checks: {t['final']} of {t['n'] - t['retired']} live changes caught"
+          + (f" ({t['retired']} retired)" if t["retired"] else "") + ".")
